@@ -201,7 +201,7 @@ fn decimal_boundary<const TA: usize, const TB: usize>(pa: &[u8], pb: &[u8]) {
     assert!(got == want, "numeric comparator disagrees with numeric value order");
     let got_real = realnum_strcmp_with_sign(sa, an, sb, bn);
     assert!(got_real == want, "real-number comparator disagrees on integer operands");
-    zcover!(xa > u64::MAX as u128, "operand above u64::MAX");
+    zcover!(xa > u64::MAX as u128, "opt: operand above u64::MAX");
     zcover!(want == Ordering::Less, "less reached");
 }
 macro_rules! c20_decimal_boundary {
@@ -221,5 +221,5 @@ macro_rules! c20_decimal_boundary {
 }
 c20_decimal_boundary!(c20_decimal_u64max_20x1, quick, 26, 2, 1, b"184467440737095516", b"");
 c20_decimal_boundary!(c20_decimal_u64max_20x20, quick, 26, 1, 1, b"1844674407370955161", b"1844674407370955161");
-c20_decimal_boundary!(c20_decimal_u32max_10x2, quick, 26, 2, 2, b"42949672", b"");
+c20_decimal_boundary!(c20_decimal_u32max_10x2, thorough, 26, 2, 2, b"42949672", b"");
 c20_decimal_boundary!(c20_decimal_21x20, thorough, 26, 2, 2, b"1844674407370955161", b"184467440737095516");
